@@ -351,17 +351,29 @@ def isInsertedStmt (roles : Roles) (s : Node) : Bool :=
       | _ => false
   | _ => false
 
-/-- strips inserted statements from statement lists and un-blocks synthetic arrow bodies -/
+/-- strips inserted statements from statement lists and un-blocks synthetic arrow bodies — but only those the
+    transform had a reason to create (a declaration was inserted into them): `(x) => e` turned into
+    `(x) => { return e; }` with nothing declared is a change of the user's code -/
 def stripRule (roles : Roles) (n : Node) : Node :=
   match n with
-  | .mk .stmts as items => .mk .stmts as (items.filter (!isInsertedStmt roles ·))
+  | .mk .stmts as items =>
+    let kept := items.filter (!isInsertedStmt roles ·)
+    if kept.length != items.length then .mk .stmts ("stripped!" :: as) kept else .mk .stmts as kept
   | .mk .module as (.mk .list las items :: rest) => .mk .module as (.mk .list las (items.filter (!isInsertedStmt roles ·)) :: rest)
-  | .mk .arrow as [params, .mk .block ("syn" :: _) [.mk .stmts _ [.mk .ret _ [e]]], tp, rt] => .mk .arrow as [params, e, tp, rt]
+  | .mk .arrow as [params, .mk .block ("syn" :: _) [.mk .stmts ("stripped!" :: _) [.mk .ret _ [e]]], tp, rt] => .mk .arrow as [params, e, tp, rt]
   | n => n
+
+def untagRule (n : Node) : Node :=
+  match n with
+  | .mk .stmts ("stripped!" :: as) items => .mk .stmts as items
+  | n => n
+
+/-- the output without the statements the transform inserted -/
+def stripAll (roles : Roles) (out : Node) : Node := post untagRule (post (stripRule roles) out)
 
 def evalOut (pragma : Option String) (out : Node) : Node :=
   let roles := rolesOfModule out ++ capturedRoles out
-  post (evalRule roles pragma) (post (stripRule roles) out)
+  post (evalRule roles pragma) (stripAll roles out)
 
 /-! ### C12: what `optimize` may add -/
 
